@@ -124,3 +124,152 @@ def gen_server(rng, consts, many_peers=False, long_times=False):
     sc.add("at %d state n" % (t + 1 * S))
     sc.add("end %d" % (t + 3 * S))
     return sc, meta
+
+
+def place_ids(rng, n, target, own, style):
+    """ids of n virtual nodes: uniform, clustered around the target or around the searcher's id"""
+    ids = set()
+    while len(ids) < n:
+        if style == "uniform":
+            x = comp.rand_id(rng)
+        else:
+            centre = target if style == "near_target" else own
+            depth = rng.range(120, 158) if rng.chance(2, 3) else rng.range(1, 160)
+            low = (1 << (160 - depth)) - 1
+            x = (centre & ~low & ((1 << 160) - 1)) | (int.from_bytes(rng.bytes(20), "big") & low)
+        if x != own:
+            ids.add(x)
+    return list(ids)
+
+
+def gen_lookup(rng, consts, hostile=False, faults=False, early=False, sizes=None):
+    """Family B: one real node searching in a world of scripted responders."""
+    sc = simlib.Scenario()
+    v6 = rng.chance(1, 5)
+    own = comp.rand_id(rng)
+    target = comp.rand_id(rng)
+    naddr = addr_in_family(rng, v6, 1)
+    n = rng.choice(sizes or [1, 2, 7, 8, 9, 12, 30, 60])
+    style = rng.choice(["uniform", "near_target", "near_own"])
+    ids = place_ids(rng, n, target, own, style)
+    sc.add("seed %d" % rng.below(1 << 30))
+    lat_hi = rng.choice([5 * MS, 50 * MS, 300 * MS, 999 * MS]) if not faults else rng.choice([50 * MS, 600 * MS, 1400 * MS])
+    sc.add("latency %d %d" % (0, lat_hi // 2))          # one-way; round trip < lat_hi
+    world = []
+    modes = {}
+    for i, idv in enumerate(ids):
+        a = addr_in_family(rng, v6, 100 + i)
+        mode = "normal"
+        if faults:
+            mode = rng.choice(["normal", "normal", "normal", "silent", "error", "garbage", "nonodes"])
+        sc.add_resp("r%d" % i, a, idv, mode, toklen=rng.choice([4, 8, 20, 1, 33]))
+        world.append((idv, a))
+        modes[a.key()] = mode
+    # peers held by some responders
+    peer_pool = [comp.rand_addr(rng, v6) for _ in range(rng.range(0, 6))]
+    holders = []
+    for i in range(len(ids)):
+        if peer_pool and rng.chance(1, 3):
+            ps = [rng.choice(peer_pool) for _ in range(rng.range(1, 3))]
+            sc.add("peers r%d %040x %s" % (i, target, ",".join(p.script() for p in ps)))
+            holders.append((i, ps))
+    sc.add("world " + " ".join("%040x@%s" % (i, a.script()) for i, a in world))
+    contacts = [a for _, a in rng_sample(rng, world, rng.range(1, min(8, len(world))))]
+    ro = rng.chance(1, 2)
+    aport = None if rng.chance(1, 2) else rng.range(1, 65535)
+    sc.add_node("n", naddr, own, ro=ro, aport=aport, nodes=contacts)
+    if faults and rng.chance(1, 2):
+        sc.add("loss %d" % rng.choice([50, 200]))
+    if faults and rng.chance(1, 3):
+        sc.add("dup %d" % rng.choice([100, 300]))
+    if faults and rng.chance(1, 3):
+        t0 = rng.range(0, 6) * S
+        sc.add("sendfail %s %d %d %d" % (naddr.script(), t0, t0 + rng.range(1, 3) * S, rng.choice([1000, 500])))
+    sc.add("at 0 boot n b0")
+    t = 0 if early else rng.choice([3 * S, 6 * S, 20 * S])
+    searches = []
+    for k in range(rng.choice([1, 1, 2, 3])):
+        ih = target if k == 0 or rng.chance(1, 2) else comp.rand_id(rng)
+        an = rng.chance(2, 3)
+        sc.add("at %d search n %040x %d s%d" % (t, ih, 1 if an else 0, k))
+        searches.append({"tag": "s%d" % k, "ih": ih, "announce": an, "t": t})
+        t += rng.choice([0, 1 * MS, 200 * MS, 2 * S, 8 * S])
+    if hostile:
+        other = addr_in_family(rng, v6, 9000)
+        base = searches[0]["t"]
+        for _ in range(rng.range(3, 12)):
+            kind = rng.choice(["dup", "old", "othersrc", "wrongmid", "wrongaid", "shorttid"])
+            sc.add("at %d forge %s %s %s" % (base + rng.below(6 * S), kind, naddr.script(), other.script()))
+        for _ in range(rng.range(0, 4)):
+            # a fabricated response carrying peers and a token, with a random transaction id
+            sc.add("at %d injectmsg %s %s t=%s r id=%040x values=%s nodes= nodes6= token=%s" % (
+                base + rng.below(6 * S), other.script(), naddr.script(), rng.bytes(8).hex(), comp.rand_id(rng),
+                comp.rand_addr(rng, v6).script(), "6666"))
+    tend = t + 40 * S
+    sc.add("at %d contacts n" % (tend - 1 * S))
+    sc.add("at %d state n" % (tend - 1 * S))
+    sc.add("end %d" % tend)
+    meta = {"v6": v6, "own": own, "target": target, "world": world, "modes": modes, "searches": searches,
+            "holders": holders, "naddr": naddr, "aport": aport, "ro": ro, "faults": faults, "hostile": hostile,
+            "lat_hi": lat_hi, "early": early}
+    return sc, meta
+
+
+def rng_sample(rng, l, k):
+    l = list(l)
+    rng.shuffle(l)
+    return l[:k]
+
+
+def gen_early(rng, consts):
+    """C16: the same search issued before bootstrap has finished and again well after it."""
+    sc, meta = gen_lookup(rng, consts, hostile=False, faults=False, early=True, sizes=[2, 5, 8, 9, 20])
+    # rebuild the timeline: searches at varying early instants, twins late; no announce (a search must not change the world)
+    lines = [l for l in sc.lines if not (l.startswith("at ") or l.startswith("end "))]
+    sc.lines = lines
+    sc.add("at 0 boot n b0")
+    ih = meta["target"]
+    early_times = sorted(set([0, rng.choice([0, 1 * MS, 10 * MS, 40 * MS, 90 * MS]), rng.below(200 * MS)]))
+    tags = []
+    for k, t in enumerate(early_times):
+        sc.add("at %d search n %040x 0 e%d" % (t, ih, k))
+        tags.append("e%d" % k)
+    sc.add("at %d search n %040x 0 late" % (30 * S, ih))
+    sc.add("end %d" % (70 * S))
+    meta["early_tags"] = tags
+    return sc, meta
+
+
+def gen_refresh_longrun(rng, consts, minutes):
+    """C18 / C11: a node in the few-contacts regime (periodic re-bootstrap every ~5 s) or alone, for a long time."""
+    sc = simlib.Scenario()
+    v6 = rng.chance(1, 5)
+    own = comp.rand_id(rng)
+    naddr = addr_in_family(rng, v6, 1)
+    sc.add("seed %d" % rng.below(1 << 30))
+    sc.add("latency %d %d" % (1 * MS, rng.choice([5 * MS, 50 * MS, 150 * MS])))
+    n = rng.choice([0, 1, 2, 3, 5, 8])
+    world = []
+    for i in range(n):
+        a = addr_in_family(rng, v6, 100 + i)
+        idv = comp.rand_id(rng)
+        sc.add_resp("r%d" % i, a, idv, "normal")
+        world.append((idv, a))
+    if world:
+        sc.add("world " + " ".join("%040x@%s" % (i, a.script()) for i, a in world))
+    sc.add_node("n", naddr, own, ro=rng.chance(1, 2), aport=None, nodes=[a for _, a in world[:rng.range(1, 3)]] if world else [])
+    # outages make the node lose and regain its bootstrapped state
+    t = 0
+    for _ in range(rng.range(0, 3)):
+        t0 = t + rng.range(5, 120) * S
+        t1 = t0 + rng.range(3, 90) * S
+        for _, a in world:
+            sc.add("outage %s %d %d" % (a.script(), t0, t1))
+        t = t1
+    end = minutes * MIN
+    for k in range(1, 6):
+        sc.add("at %d state n" % (end * k // 6))
+    if rng.chance(1, 2) and world:
+        sc.add("at %d search n %040x 1 s0" % (end // 2, comp.rand_id(rng)))
+    sc.add("end %d" % end)
+    return sc, {"own": own, "world": world, "naddr": naddr, "minutes": minutes}
